@@ -5,7 +5,7 @@
    post = solve_t_after), any selection (None = default = insertion order), any options, any state. *)
 From Coq Require Import ZArith List Bool PrimFloat.
 Import ListNotations.
-Require Import PyBase Solver SolverFacts SolverF Linker LinkerFacts LinkerFacts2 LinkerFacts3 LinkerF LinkerExamples.
+Require Import PyBase Solver SolverFacts SolverF SolveAll SolveAllFacts Linker LinkerFacts LinkerFacts2 LinkerFacts3 LinkerFacts4 LinkerRange LinkerFacts5 LinkerF LinkerExamples LinkerExamples2.
 Open Scope Z_scope.
 
 (* ---------------------------------------------------------------- what NO path of solve_t changes *)
@@ -326,6 +326,212 @@ Theorem C08_ctor_array_spans_refuted :
                linker_ctor_M subs None = Raise ValueError.
 Proof. exact ctor_array_spans_refuted. Qed.
 
+(* ---------------------------------------------------------------- the convergence clause, entry by entry *)
+(* cv k = the check values after k iterations: one vector for the linker, then one per SELECTED submodel in insertion
+   order, one entry per name in that container's `check` (cv 0 = the values read before the counters are zeroed and
+   the pre-hook runs).  Iteration k qualifies when 1 <= k <= max_iter, min_iter <= k and EVERY entry of EVERY vector
+   moved by strictly less than tol since iteration k-1 (the vectors have the same shape at every k: nothing is
+   dropped by the pairwise comparison).  The period is declared solved iff some iteration qualifies; the stamped
+   count is then the LEAST such k; otherwise 'F' and max_iter. *)
+Theorem C08_solved_iff_all_moved_lt_tol :
+  forall (num : Type) (sub : num -> num -> num) (absf : num -> num) (ltb : num -> num -> bool) (zero : num)
+         (sev : sid -> hook num) (pre ebefore eafter post : lhook num)
+         (sel : option (list sid)) (o : opts num) (t : Z) (p : nat) (s : lstate num)
+         (subs1 : list (sid * comp num)) (s1 : lstate num),
+    let ids := sel_ids num sel s in
+    let N := Z.to_nat (max_iter o) in
+    wf num t p s ->
+    zero_iters num ids t (l_subs s) = (subs1, None) ->
+    run_hook num pre ids o t 0%nat (LPre t) (mkL (l_core s) subs1 (l_log s)) = (s1, None) ->
+    quiet_upto num sev ebefore eafter ids o t s1 N ->
+    (forall k s', snd (run_hook num post ids o t k (LPost t k) s') = None) ->
+    let cv := fun k : nat => match k with
+                             | O => check_vec num zero ids p s
+                             | S _ => check_vec num zero ids p (lst_after num sev ebefore eafter ids o t s1 k)
+                             end in
+    let qualifies := fun k : nat =>
+      (1 <= k <= N)%nat /\ min_iter o <= Z.of_nat k /\
+      Forall2 (Forall2 (fun c q : num => ltb (absf (sub c q)) (tol o) = true)) (cv k) (cv (k - 1)%nat) in
+    let r := linker_solve_t_M num sub absf ltb zero sev pre ebefore eafter post sel o t s in
+    (snd r = LRet true <-> exists k, qualifies k) /\
+    (forall k, qualifies k -> (forall j, (j < k)%nat -> ~ qualifies j) ->
+       snd r = LRet true /\
+       nth_error (status (c_st (l_core (fst r)))) p = Some Solved /\
+       nth_error (iters (c_st (l_core (fst r)))) p = Some (Z.of_nat k)) /\
+    ((forall k, ~ qualifies k) ->
+       snd r = (if fail_raise o then LRaise (LExn NonConvergenceError) else LRet false) /\
+       nth_error (status (c_st (l_core (fst r)))) p = Some Failed /\
+       nth_error (iters (c_st (l_core (fst r)))) p = Some (Z.of_nat N)).
+Proof. exact solved_iff_all_moved_lt_tol. Qed.
+
+(* the vectors compared at iteration k have the same shape: same number of containers, same number of entries each *)
+Theorem C08_check_vectors_keep_shape :
+  forall (num : Type) (zero : num) (sev : sid -> hook num) (pre ebefore eafter : lhook num)
+         (sel : option (list sid)) (o : opts num) (t : Z) (p : nat) (s : lstate num)
+         (subs1 : list (sid * comp num)) (s1 : lstate num),
+    let ids := sel_ids num sel s in
+    zero_iters num ids t (l_subs s) = (subs1, None) ->
+    run_hook num pre ids o t 0%nat (LPre t) (mkL (l_core s) subs1 (l_log s)) = (s1, None) ->
+    forall k : nat,
+    Forall2 (fun x y : list num => length x = length y)
+      (match k with O => check_vec num zero ids p s | S _ => check_vec num zero ids p (lst_after num sev ebefore eafter ids o t s1 k) end)
+      (match (k - 1)%nat with O => check_vec num zero ids p s | S _ => check_vec num zero ids p (lst_after num sev ebefore eafter ids o t s1 (k - 1)) end).
+Proof. exact cvk_shape_step. Qed.
+
+(* ---------------------------------------------------------------- the frame: other periods *)
+(* on EVERY path of solve_t(t) the status / iteration series of the linker and of every submodel keep their length and
+   every entry at a position other than the one t denotes *)
+Theorem C08_solve_t_other_periods_untouched :
+  forall (num : Type) (sub : num -> num -> num) (absf : num -> num) (ltb : num -> num -> bool) (zero : num)
+         (sev : sid -> hook num) (pre ebefore eafter post : lhook num)
+         (sel : option (list sid)) (o : opts num) (t : Z) (s : lstate num),
+    let s' := fst (linker_solve_t_M num sub absf ltb zero sev pre ebefore eafter post sel o t s) in
+    let keeps := fun (A : Type) (l l' : list A) =>
+      length l' = length l /\ forall q, py_pos (length l) t <> Some q -> nth_error l' q = nth_error l q in
+    (keeps st (status (c_st (l_core s))) (status (c_st (l_core s'))) /\
+     keeps Z (iters (c_st (l_core s))) (iters (c_st (l_core s')))) /\
+    Forall2 (fun a b : sid * comp num => fst a = fst b /\
+               keeps st (status (c_st (snd a))) (status (c_st (snd b))) /\
+               keeps Z (iters (c_st (snd a))) (iters (c_st (snd b)))) (l_subs s) (l_subs s').
+Proof. exact solve_t_other_periods_untouched. Qed.
+
+(* ... and on every path of solve() over the positions ps, every position that no member of ps denotes *)
+Theorem C08_solve_other_periods_untouched :
+  forall (num : Type) (sub : num -> num -> num) (absf : num -> num) (ltb : num -> num -> bool) (zero : num)
+         (sev : sid -> hook num) (pre ebefore eafter post : lhook num)
+         (sel : option (list sid)) (o : opts num) (ps : list Z) (s : lstate num),
+    let s' := fst (linker_solve_M num sub absf ltb zero sev pre ebefore eafter post sel o ps s) in
+    let keeps := fun (A : Type) (l l' : list A) =>
+      length l' = length l /\
+      forall q, (forall t, In t ps -> py_pos (length l) t <> Some q) -> nth_error l' q = nth_error l q in
+    (keeps st (status (c_st (l_core s))) (status (c_st (l_core s'))) /\
+     keeps Z (iters (c_st (l_core s))) (iters (c_st (l_core s')))) /\
+    Forall2 (fun a b : sid * comp num => fst a = fst b /\
+               keeps st (status (c_st (snd a))) (status (c_st (snd b))) /\
+               keeps Z (iters (c_st (snd a))) (iters (c_st (snd b)))) (l_subs s) (l_subs s').
+Proof. exact solve_other_periods_untouched. Qed.
+
+(* an exception out of a linker hook or a submodel's _evaluate (LUser) surfaces unchanged and NOTHING has been stamped:
+   every status series (linker and submodels) and the linker's own iteration counters are as before the call *)
+Theorem C08_user_exception_stamps_nothing :
+  forall (num : Type) (sub : num -> num -> num) (absf : num -> num) (ltb : num -> num -> bool) (zero : num)
+         (sev : sid -> hook num) (pre ebefore eafter post : lhook num)
+         (sel : option (list sid)) (o : opts num) (t : Z) (s : lstate num) (c : Z),
+    snd (linker_solve_t_M num sub absf ltb zero sev pre ebefore eafter post sel o t s) = LRaise (LUser c) ->
+    let s' := fst (linker_solve_t_M num sub absf ltb zero sev pre ebefore eafter post sel o t s) in
+    status (c_st (l_core s')) = status (c_st (l_core s)) /\
+    iters (c_st (l_core s')) = iters (c_st (l_core s)) /\
+    Forall2 (fun a b : sid * comp num => fst a = fst b /\ status (c_st (snd b)) = status (c_st (snd a))) (l_subs s) (l_subs s').
+Proof. exact user_exception_stamps_nothing. Qed.
+
+(* ---------------------------------------------------------------- constructor, read backwards *)
+(* a linker over >= 1 submodels exists only if no span test answered "differs" or failed; it then carries the first
+   submodel's span and the maxima of LAGS / LEADS (each attained by some submodel) *)
+Theorem C08_ctor_accepted_implies_equal_spans_and_maxima :
+  forall (id0 : sid) (b : subinfo) (rest : list (sid * subinfo)) (sp : pspan) (lg ld : Z),
+    linker_ctor_M ((id0, b) :: rest) None = Ret (sp, lg, ld) ->
+    sp = si_span b /\
+    (forall ic, In ic rest -> span_ne (si_span (snd ic)) (si_span b) = Ret false) /\
+    (forall ic, In ic ((id0, b) :: rest) -> si_LAGS (snd ic) <= lg) /\
+    (exists ic, In ic ((id0, b) :: rest) /\ si_LAGS (snd ic) = lg) /\
+    (forall ic, In ic ((id0, b) :: rest) -> si_LEADS (snd ic) <= ld) /\
+    (exists ic, In ic ((id0, b) :: rest) /\ si_LEADS (snd ic) = ld).
+Proof. exact ctor_accept_inv. Qed.
+
+(* for list / range spans: every submodel of an accepted linker has exactly the first submodel's period labels *)
+Theorem C08_ctor_accepts_only_equal_spans :
+  forall (id0 : sid) (b : subinfo) (rest : list (sid * subinfo)) (sp : pspan) (lg ld : Z),
+    linker_ctor_M ((id0, b) :: rest) None = Ret (sp, lg, ld) ->
+    forall ic, In ic rest -> sp_kind (si_span (snd ic)) <> SArray -> sp_kind (si_span b) <> SArray ->
+    sp_labels (si_span (snd ic)) = sp_labels (si_span b).
+Proof. exact ctor_accepts_only_equal_spans. Qed.
+
+(* ---------------------------------------------------------------- solve(start=, end=) over label ranges *)
+Theorem C08_linker_solve_span_min_gt_max :
+  forall (num : Type) (sub : num -> num -> num) (absf : num -> num) (ltb : num -> num -> bool) (zero : num)
+         (sev : sid -> hook num) (pre ebefore eafter post : lhook num) (L : Type) (locate : L -> locres)
+         (lg ld : nat) (span : list L) (start end_ : option L) (sel : option (list sid)) (o : opts num) (s : lstate num),
+    max_iter o < min_iter o ->
+    linker_solve_span_M num sub absf ltb zero sev pre ebefore eafter post L locate lg ld span start end_ sel o s
+    = (s, inl (LExn ValueError)).
+Proof. exact linker_solve_span_min_gt_max. Qed.
+
+Theorem C08_linker_solve_span_empty :
+  forall (num : Type) (sub : num -> num -> num) (absf : num -> num) (ltb : num -> num -> bool) (zero : num)
+         (sev : sid -> hook num) (pre ebefore eafter post : lhook num) (L : Type) (locate : L -> locres)
+         (lg ld : nat) (start end_ : option L) (sel : option (list sid)) (o : opts num) (s : lstate num),
+    min_iter o <= max_iter o ->
+    linker_solve_span_M num sub absf ltb zero sev pre ebefore eafter post L locate lg ld [] start end_ sel o s
+    = (s, inl (LExn (SolutionError None))).
+Proof. exact linker_solve_span_empty. Qed.
+
+Theorem C08_linker_solve_span_unknown_start :
+  forall (num : Type) (sub : num -> num -> num) (absf : num -> num) (ltb : num -> num -> bool) (zero : num)
+         (sev : sid -> hook num) (pre ebefore eafter post : lhook num) (L : Type) (locate : L -> locres)
+         (lg ld : nat) (span : list L) (x : L) (end_ : option L) (sel : option (list sid)) (o : opts num) (s : lstate num),
+    min_iter o <= max_iter o -> span <> [] -> locate x = LFail ->
+    (end_ <> None \/ (ld < length span)%nat) ->
+    linker_solve_span_M num sub absf ltb zero sev pre ebefore eafter post L locate lg ld span (Some x) end_ sel o s
+    = (s, inl (LExn KeyError)).
+Proof. exact linker_solve_span_unknown_start. Qed.
+
+Theorem C08_linker_solve_span_unknown_end :
+  forall (num : Type) (sub : num -> num -> num) (absf : num -> num) (ltb : num -> num -> bool) (zero : num)
+         (sev : sid -> hook num) (pre ebefore eafter post : lhook num) (L : Type) (locate : L -> locres)
+         (lg ld : nat) (span : list L) (start : option L) (y : L) (sel : option (list sid)) (o : opts num) (s : lstate num)
+         (st : L),
+    min_iter o <= max_iter o -> span <> [] -> locate y = LFail ->
+    match start with Some x => Some x | None => py_get span (Z.of_nat lg) end = Some st ->
+    linker_solve_span_M num sub absf ltb zero sev pre ebefore eafter post L locate lg ld span start (Some y) sel o s
+    = (s, inl (LExn KeyError)).
+Proof. exact linker_solve_span_unknown_end. Qed.
+
+(* one solve_t per position from `start` (default: position lags) to `end` (default: n - 1 - leads) inclusive, in
+   span order; the triple returned pairs those positions with their labels and the solve_t flags *)
+Theorem C08_linker_solve_span_eq_fold :
+  forall (num : Type) (sub : num -> num -> num) (absf : num -> num) (ltb : num -> num -> bool) (zero : num)
+         (sev : sid -> hook num) (pre ebefore eafter post : lhook num) (L : Type) (locate : L -> locres)
+         (lg ld : nat) (span : list L) (start end_ : option L) (sel : option (list sid)) (o : opts num) (s : lstate num)
+         (a b : nat),
+    min_iter o <= max_iter o -> locate_ok L locate span ->
+    resolves_start L (mkDesc [] [] lg ld) span start a -> resolves_end L (mkDesc [] [] lg ld) span end_ b ->
+    linker_solve_span_M num sub absf ltb zero sev pre ebefore eafter post L locate lg ld span start end_ sel o s =
+    match linker_solve_M num sub absf ltb zero sev pre ebefore eafter post sel o (map Z.of_nat (seq a (S b - a))) s with
+    | (s', inl e) => (s', inl e)
+    | (s', inr bs) => (s', inr ((S b - a)%nat, combine (map (fun tl : Z * L => (snd tl, fst tl)) (periods L span a b)) bs))
+    end.
+Proof. exact linker_solve_span_eq_fold. Qed.
+
+(* every period outside [start, end] keeps its status / iteration entries, on the linker and on every submodel *)
+Theorem C08_linker_solve_span_outside_untouched :
+  forall (num : Type) (sub : num -> num -> num) (absf : num -> num) (ltb : num -> num -> bool) (zero : num)
+         (sev : sid -> hook num) (pre ebefore eafter post : lhook num) (L : Type) (locate : L -> locres)
+         (lg ld : nat) (span : list L) (start end_ : option L) (sel : option (list sid)) (o : opts num) (s : lstate num)
+         (a b q : nat),
+    min_iter o <= max_iter o -> locate_ok L locate span ->
+    resolves_start L (mkDesc [] [] lg ld) span start a -> resolves_end L (mkDesc [] [] lg ld) span end_ b ->
+    (q < a \/ b < q)%nat ->
+    let s' := fst (linker_solve_span_M num sub absf ltb zero sev pre ebefore eafter post L locate lg ld span start end_ sel o s) in
+    nth_error (status (c_st (l_core s'))) q = nth_error (status (c_st (l_core s))) q /\
+    nth_error (iters (c_st (l_core s'))) q = nth_error (iters (c_st (l_core s))) q /\
+    Forall2 (fun x y : sid * comp num => fst x = fst y /\
+               nth_error (status (c_st (snd y))) q = nth_error (status (c_st (snd x))) q /\
+               nth_error (iters (c_st (snd y))) q = nth_error (iters (c_st (snd x))) q) (l_subs s) (l_subs s').
+Proof. exact linker_solve_span_outside_untouched_core. Qed.
+
+(* constructor + default range: from the LONGEST lag to n - 1 - the LONGEST lead, and at each visited position every
+   submodel has its own lags behind it and its own leads ahead of it inside the span *)
+Theorem C08_default_range_fits_every_submodel :
+  forall (subs : list (sid * subinfo)) (labels : list Z) (lg ld a b : nat),
+    subs <> [] ->
+    ctor_lags_leads subs None = Ret (labels, lg, ld) ->
+    (forall ic, In ic subs -> 0 <= si_LAGS (snd ic) /\ 0 <= si_LEADS (snd ic)) ->
+    resolves_start Z (mkDesc [] [] lg ld) labels None a -> resolves_end Z (mkDesc [] [] lg ld) labels None b ->
+    a = lg /\ (b + ld + 1 = length labels)%nat /\
+    forall t, In t (map Z.of_nat (seq a (S b - a))) -> forall ic, In ic subs ->
+      si_LAGS (snd ic) <= t /\ t + si_LEADS (snd ic) < Z.of_nat (length labels).
+Proof. exact default_range_fits_every_submodel. Qed.
+
 (* ---------------------------------------------------------------- one model in a linker = the model itself *)
 Theorem C08_single_model_linker_eq_model :
   forall (num : Type) (sub : num -> num -> num) (absf : num -> num) (ltb : num -> num -> bool)
@@ -380,5 +586,23 @@ Print Assumptions C08_lags_leads_are_maxima.
 Print Assumptions C08_ctor_empty.
 Print Assumptions C08_ctor_array_spans_refuted.
 Print Assumptions C08_single_model_linker_eq_model.
+Print Assumptions C08_solved_iff_all_moved_lt_tol.
+Print Assumptions C08_check_vectors_keep_shape.
+Print Assumptions C08_solve_t_other_periods_untouched.
+Print Assumptions C08_solve_other_periods_untouched.
+Print Assumptions C08_user_exception_stamps_nothing.
+Print Assumptions C08_ctor_accepted_implies_equal_spans_and_maxima.
+Print Assumptions C08_ctor_accepts_only_equal_spans.
+Print Assumptions C08_linker_solve_span_min_gt_max.
+Print Assumptions C08_linker_solve_span_empty.
+Print Assumptions C08_linker_solve_span_unknown_start.
+Print Assumptions C08_linker_solve_span_unknown_end.
+Print Assumptions C08_linker_solve_span_eq_fold.
+Print Assumptions C08_linker_solve_span_outside_untouched.
+Print Assumptions C08_default_range_fits_every_submodel.
 Print Assumptions lx_hypotheses_satisfiable.
 Print Assumptions lx_single_hypotheses_satisfiable.
+Print Assumptions lx_qualifies_at_4.
+Print Assumptions lx_user_raise.
+Print Assumptions lx_span_hypotheses_satisfiable.
+Print Assumptions lx_default_range_hypotheses_satisfiable.
